@@ -13,6 +13,15 @@ Tie (every run):
     generated workloads; the logged write_data_block calls, the fragment table, the inodes and the output file are
     compared (a) with `sqfsmodel c02 run` on the same workload and backlog, (b) with the same program linked against
     threadpool_serial.c, (c) among all configurations.
+ 1b. API scripts (files, sqfs_block_processor_submit_block, sync between files) and a compressor that FAILS on marked blocks
+    (codec `toyf` of harness/h_c02.c) against `sqfsmodel c02 runx` (Sqfs/Model/BlockProcFail.lean): the serial-pool build must
+    equal the model of the current sync() or of the repaired one; when some block's work fails every backlog / worker count /
+    schedule must end in an error (determinism of failure).
+ 1c. compressor level — harness/h_c02_comp.c: every compiled-in compressor x a seeded sample of its option space: the
+    configured compressor is sqfs_copy'd into k worker copies as sqfs_block_processor_create_ex does, seeded block sequences are
+    fed to the copies under seeded assignments; every result must equal a fresh compressor's result for that block alone
+    (history independence of do_block, the purity hypothesis of the theorems), copies must behave like the original, and what
+    was compressed must uncompress to the block (CodecOk).  Monitor: `sqfsmodel c02 hi` (obsIndependent).
  2. tool level — gensquashfs (pack file, --pack-dir) and tar2sqfs from the working tree at many -j / -Q / environments
     (TZ, LC_ALL, umask, cwd, CPU affinity, faked clock, scheduling perturbation shim), ASan and TSan builds, against
     the serial-pool build of the same tool: sha256 of the image must be the same.
@@ -24,10 +33,13 @@ from checks.c09 import run_parallel, jobs
 
 LEVEL = "proof"
 MODULE = "Sqfs.Props.C02"
+EXTRA_THEOREMS = ("stateful_pool_is_pure", "schedule_independent_stateful", "stateful_worker_schedule_dependent",
+                  "script_schedule_independent", "failure_deterministic_partial", "failed_item_back_status_nonzero",
+                  "run_eq_specPack", "threaded_eq_specPack", "threaded_readback", "threaded_directives", "tree_order_bytewise")
 REQUIRED = ["Sqfs.C02." + t for t in (
     "run_eq_spec", "backlog_independent", "run_ok", "dequeue_never_internal_error", "finish_writes_everything",
     "realised_eq_serial", "schedule_independent", "jobs_independent", "times_depend_only_on_source_date_epoch",
-    "source_date_epoch_default", "run_eq_specPack_partial", "run_sync_eq_spec", "exCodec_ok")]
+    "source_date_epoch_default", "run_eq_specPack_partial", "run_sync_eq_spec", "exCodec_ok") + EXTRA_THEOREMS]
 
 NPOLICY = 10
 FL = {"dc": 1, "dh": 2, "df": 4, "dd": 8, "is": 16}
@@ -173,7 +185,7 @@ def unit_level(ctx, stats):
     quick = ctx.quick()
     nwl = 300 if quick else 1500
     wls = [gen_workload(rng, quick) for _ in range(nwl)] + [gen_workload(rng, quick, big=True) for _ in range(6 if quick else 40)]
-    corpus = sorted((vlib.CORPUS / "C02").glob("*.json")) if (vlib.CORPUS / "C02").exists() else []
+    corpus = sorted(p for p in (vlib.CORPUS / "C02").glob("*.json") if not p.name.startswith("script_")) if (vlib.CORPUS / "C02").exists() else []
     for p in corpus:
         try:
             c = json.loads(p.read_text())
@@ -297,6 +309,15 @@ def unit_level(ctx, stats):
             feat[fx] = feat.get(fx, 0) + 1
         if features(w, want) & {"fragment-block-overflow", "fragment-dedup-hit", "file-dedup-hit", "sparse", "multi-block-file"}:
             nontrivial.add(wi)
+    TRACE_KEYS = ("steps", "dl", "mtx", "sub", "fifo", "ovt", "ord", "maxq")
+    untraced = [l for l, a in list(zip(lines, impl)) + list(zip(ref_lines, ref)) if a != "<no output>" and any(k not in split_result(a)[1] for k in TRACE_KEYS)]
+    if untraced:
+        # without the trace (the link-time wrapper of thread_pool_create no longer binds, a field was dropped) the FIFO, dead-lock and
+        # mutex verdicts below would default to "fine": not a pass
+        bad += len(untraced)
+        ctx.violation("infra:unit-trace-missing", "%d harness runs came back without the complete pool trace (%s): the instrumentation "
+                      "(-Wl,--wrap=thread_pool_create, controlled scheduler) is not in effect" % (len(untraced), ",".join(TRACE_KEYS)),
+                      {"kind": "unit", "line": untraced[0], "serial_line": untraced[0]}, found_input=False)
     for l, (wi, workers, mb, policy), a in zip(lines, meta, impl):
         canon, tr = split_result(a)
         want = split_result(ref[wi * nref])[0]
@@ -340,6 +361,400 @@ def unit_level(ctx, stats):
     return h, hs
 
 
+
+# --------------------------------------------------------------------------------------------------- API scripts, failing compressor
+MB_X = [0, 3, 5, 40]
+KEY_SWALLOWED = "failure-swallowed@sqfs_block_processor_sync"
+
+
+def gen_script(rng, failing):
+    """an API script: files, manual submissions, sync calls; with `failing` some blocks start with 0xEE (the fake compressor
+    of harness/h_c02.c fails on them).  -> dict(B, bc, hbits, codec, pre, chunk, ops=[('f',flags,data)|('m',flags,data)|('s',)])"""
+    w = gen_workload(rng, True)
+    B = w["B"]
+    ops = []
+    for fl, d in w["files"]:
+        if failing and len(d) > 0 and rng.random() < 0.3:
+            z = bytearray(d)
+            k = rng.randrange(0, (len(z) + B - 1) // B) * B          # first byte of some block (or of the tail)
+            z[k] = 0xEE
+            d = bytes(z)
+        ops.append(("f", fl, d))
+        r = rng.random()
+        if r < 0.12:
+            ops.append(("s",))
+        elif r < 0.30:
+            n = rng.choice([0, 1, B // 2, B - 1, B, B])
+            kind = rng.choice("rrccz")
+            d2 = gen_bytes(rng, n, kind, B)
+            if failing and n > 0 and rng.random() < 0.3:
+                d2 = b"\xee" + d2[1:]
+            fl2 = rng.choice([0, 0, 0, FL["dc"], FL["dh"], FL["is"], FL["dd"], 0x800 | 0x1000, 0x800 | 0x1000 | FL["dd"]])
+            ops.append(("m", fl2, d2))
+    if failing and not any(o[0] != "s" and o[2][:1] == b"\xee" for o in ops):
+        ops.append(("f", FL["df"], b"\xee" + gen_bytes(rng, 2 * B - 1, "r", B)))
+    w["ops"] = ops
+    w["codec"] = "toyf" if failing else w["codec"]
+    del w["files"]
+    return w
+
+
+def ops_text(w):
+    return "%d %s" % (len(w["ops"]), " ".join("s" if o[0] == "s" else "%s %d %s" % (o[0], o[1], hx(o[2])) for o in w["ops"])) if w["ops"] else "0"
+
+
+def bpx_line(w, workers, mb, policy, seed):
+    return ("bpx %d %d %d %d %s %d %s" % (workers, mb, policy, seed, wl_text(w), w["chunk"], ops_text(w))).strip()
+
+
+def runx_line(w, variant, mb):
+    return ("runx %d %d %d %d %d %s %s %s" % (variant, w["B"], mb, w["bc"], w["hbits"], w["codec"], hx(w["pre"]), ops_text(w))).strip()
+
+
+def script_level(ctx, stats, h, hs):
+    rng = ctx.rng
+    quick = ctx.quick()
+    n = 60 if quick else 400
+    scripts = [gen_script(rng, failing=(i % 2 == 1)) for i in range(n)]
+    corpus = sorted((vlib.CORPUS / "C02").glob("script_*.json")) if (vlib.CORPUS / "C02").exists() else []
+    for p in corpus:
+        try:
+            c = json.loads(p.read_text())
+            scripts.insert(0, {"B": c["B"], "bc": c["bc"], "hbits": c["hbits"], "codec": c["codec"], "pre": bytes.fromhex(c["pre"]), "chunk": c["chunk"],
+                               "ops": [tuple(o[:2]) + (bytes.fromhex(o[2]),) if o[0] != "s" else ("s",) for o in c["ops"]]})
+        except Exception as e:
+            ctx.log("corpus entry %s unreadable: %s" % (p, e))
+    per = 8 if quick else 16
+    maxw = 8 if quick else 63
+    ser_lines = [bpx_line(w, 1, mb, 0, 0) for w in scripts for mb in MB_X]
+    m0_lines = [runx_line(w, 0, mb) for w in scripts for mb in MB_X]
+    m1_lines = [runx_line(w, 1, mb) for w in scripts for mb in MB_X]
+    thr_lines, meta = [], []
+    for wi, w in enumerate(scripts):
+        for k in range(per):
+            policy = k % NPOLICY if k < NPOLICY else rng.randrange(NPOLICY)
+            workers = rng.choice([1, 2, 2, 3, 4, 5, 8, maxw])
+            if policy in (3, 4) and workers < 2:
+                workers = 2
+            mb = rng.choice([0, 3, 3, 4, 5, 8, 16, 40])
+            thr_lines.append(bpx_line(w, workers, mb, policy, rng.randrange(1 << 30)))
+            meta.append((wi, workers, mb, policy))
+    ser, p1 = run_parallel(ctx, [str(hs)], ser_lines, 900, pin=False)
+    thr, p2 = run_parallel(ctx, [str(h)], thr_lines, 1500)
+    m0 = model_run(ctx, m0_lines)
+    m1 = model_run(ctx, m1_lines)
+    for pb in (p1 + p2)[:3]:
+        ctx.violation("crash:" + vlib.sha(pb["script"])[:12], "block processor harness aborted / hung on an API script (rc=%s): %s" % (pb["rc"], pb["stderr"][-400:]),
+                      {"kind": "unit", "line": pb["script"], "stderr": pb["stderr"]})
+    nm = len(MB_X)
+    bad = corr_bad = swallowed = 0
+    untraced = [l for l, a in list(zip(thr_lines, thr)) + list(zip(ser_lines, ser))
+                if a != "<no output>" and any(k not in split_result(a)[1] for k in ("dl", "mtx", "fifo", "sub", "wfail"))]
+    if untraced:
+        bad += len(untraced)
+        ctx.violation("infra:unit-trace-missing", "%d API script runs came back without the complete pool trace (dl, mtx, fifo, sub, wfail): without it a failed "
+                      "callback would go unnoticed" % len(untraced), {"kind": "unit", "line": untraced[0], "serial_line": untraced[0]}, found_input=False)
+    variant_seen = {"current": 0, "repaired": 0, "either": 0}
+    nfail_scripts = ndet = nmanual = 0
+    for wi, w in enumerate(scripts):
+        sers = [split_result(x)[0] for x in ser[wi * nm:(wi + 1) * nm]]
+        v0 = m0[wi * nm:(wi + 1) * nm]
+        v1 = m1[wi * nm:(wi + 1) * nm]
+        if any(x == "<no output>" for x in sers):
+            continue
+        if any(o[0] == "m" for o in w["ops"]):
+            nmanual += 1
+        # (a) correspondence: the serial-pool build is the model of the current sync() or of the repaired one
+        for k in range(nm):
+            if sers[k] == v0[k] and sers[k] == v1[k]:
+                variant_seen["either"] += 1
+            elif sers[k] == v0[k]:
+                variant_seen["current"] += 1
+            elif sers[k] == v1[k]:
+                variant_seen["repaired"] += 1
+            else:
+                corr_bad += 1
+                if corr_bad <= 3:
+                    ctx.violation("corr-script:" + vlib.sha(m0_lines[wi * nm + k])[:12],
+                                  "model and real block processor (serial pool) differ on an API script: real=%s model(current sync)=%s model(repaired sync)=%s" % (
+                                      sers[k][:400], v0[k][:300], v1[k][:100]),
+                                  {"kind": "unit-script", "model_lines": [m0_lines[wi * nm + k], m1_lines[wi * nm + k]], "harness_line": ser_lines[wi * nm + k],
+                                   "model": [v0[k], v1[k]], "real": sers[k]},
+                                  found_input=(v0[k].startswith("ok ") and sers[k].startswith("err") and w["codec"] != "toyf"))
+        # does some block's work fail?  (the repaired model reports the pool status at the end of every drain; the trace of the
+        # real run counts the failed callbacks)
+        fails = any(int(split_result(x)[1].get("wfail", "0")) > 0 for x in ser[wi * nm:(wi + 1) * nm]) or \
+            any(int(split_result(a)[1].get("wfail", "0")) > 0 for a, mt in zip(thr, meta) if mt[0] == wi)
+        mine = [(l, a, mt) for l, a, mt in zip(thr_lines, thr, meta) if mt[0] == wi and a != "<no output>"]
+        for l, a, mt in mine:
+            tr = split_result(a)[1]
+            if tr.get("mtx", "0") != "0" or tr.get("dl", "0") != "0" or (tr.get("fifo", "1") != "1"):
+                bad += 1
+                if bad <= 3:
+                    ctx.violation("unit-script:" + vlib.sha(l)[:12], "API script on the controlled pool (workers=%d max_backlog=%d policy=%d): dead-lock (dl=%s), "
+                                  "mutex held at a scheduling point (mtx=%s) or items handed back out of order (fifo=%s)" % (
+                                      mt[1], mt[2], mt[3], tr.get("dl"), tr.get("mtx"), tr.get("fifo")),
+                                  {"kind": "unit", "line": l, "serial_line": ser_lines[wi * nm], "threaded": a, "serial": sers[0]})
+        mine = [x for x in mine if split_result(x[1])[1].get("dl", "0") == "0"]
+        if fails:
+            nfail_scripts += 1
+            # (c) determinism of failure: no run may report success
+            oks = [(ser_lines[wi * nm + k], sers[k], "serial pool, max_backlog=%d" % MB_X[k]) for k in range(nm) if sers[k].startswith("ok ")] + \
+                  [(l, split_result(a)[0], "workers=%d max_backlog=%d policy=%d" % mt[1:]) for l, a, mt in mine if split_result(a)[0].startswith("ok ")]
+            errs = [x for x in sers if x.startswith("err")] + [split_result(a)[0] for _, a, _ in mine if split_result(a)[0].startswith("err")]
+            if oks:
+                swallowed += 1
+                if swallowed <= 1:
+                    ctx.violation(KEY_SWALLOWED,
+                                  "a compressor failure (do_block < 0) is swallowed: %d of %d runs of the same API script return 0 from finish() with the failed block "
+                                  "stored uncompressed (%s), %d runs return an error (%s) - the outcome depends on max_backlog / worker count / schedule" % (
+                                      len(oks), nm + len(mine), oks[0][2], len(errs), errs[0] if errs else "-"),
+                                  {"kind": "unit-fail", "ok_line": oks[0][0], "ok_serial": oks[0][2].startswith("serial"),
+                                   "err_line": next((l for l, a, _ in mine if split_result(a)[0].startswith("err")), None)})
+            else:
+                ndet += 1
+        else:
+            # (b) no failure: every configuration gives the serial build's result
+            for l, a, mt in mine:
+                canon, tr = split_result(a)
+                why = None
+                if tr.get("mtx", "0") != "0":
+                    why = "a mutex was held at a scheduling point"
+                elif tr.get("dl", "0") != "0":
+                    why = "dead-lock / livelock under the controlled scheduler (dl=%s)" % tr.get("dl")
+                elif tr.get("fifo", "1") != "1":
+                    why = "the pool handed items back out of submission order"
+                elif canon != sers[0]:
+                    why = "output differs from the serial-pool build's: threaded=%s serial=%s" % (canon[:400], sers[0][:400])
+                if why:
+                    bad += 1
+                    if bad <= 3:
+                        ctx.violation("unit-script:" + vlib.sha(l)[:12], "API script on the controlled pool (workers=%d max_backlog=%d policy=%d): %s" % (mt[1], mt[2], mt[3], why),
+                                      {"kind": "unit", "line": l, "serial_line": ser_lines[wi * nm], "threaded": a, "serial": sers[0]})
+            if len(set(sers)) != 1:
+                bad += 1
+                if bad <= 3:
+                    k = next(i for i, r in enumerate(sers) if r != sers[0])
+                    ctx.violation("serial-backlog-script:" + vlib.sha(ser_lines[wi * nm + k])[:12],
+                                  "serial-pool build: output of an API script depends on max_backlog (%d vs %d)" % (MB_X[0], MB_X[k]),
+                                  {"kind": "unit-serial", "lines": [ser_lines[wi * nm], ser_lines[wi * nm + k]], "outputs": [sers[0][:2000], sers[k][:2000]]})
+    if variant_seen["current"] and variant_seen["repaired"]:
+        corr_bad += 1
+        ctx.violation("corr-script:mixed-variants", "the serial-pool build matches the model of the current sync() on some scripts and the model of the "
+                      "repaired sync() on others: %s" % variant_seen, {"kind": "unit-script-mixed", "seen": variant_seen}, found_input=False)
+    stats["scripts"] = {"scripts": len(scripts), "corpus": len(corpus), "with_manual_submission": nmanual,
+                        "with_sync_between_files": sum(1 for w in scripts if any(o[0] == "s" for o in w["ops"])),
+                        "scripts_in_which_a_worker_callback_failed": nfail_scripts, "of_those_every_run_an_error": ndet,
+                        "of_those_some_run_reported_success": swallowed,
+                        "serial_runs": len(ser_lines), "threaded_runs": len(thr_lines), "model_runs": len(m0_lines) + len(m1_lines),
+                        "serial_build_matches_model_of": variant_seen, "property_violations": bad + swallowed, "model_disagreements": corr_bad}
+    stats["evaluations"] += len(ser_lines) + len(thr_lines) + len(m0_lines) + len(m1_lines)
+    stats["disagreements"] += bad + corr_bad + swallowed
+    stats["samples"].append(thr_lines[len(thr_lines) // 3][:300])
+
+
+# --------------------------------------------------------------------------------------------------- compressor level
+def valid_dict_sizes(lo, hi):
+    out = []
+    n = 1
+    while n <= hi:
+        for v in (n, n + n // 2):
+            if lo <= v <= hi and v not in out:
+                out.append(v)
+        n *= 2
+    return out
+
+
+def gen_comp_config(rng, comp, B):
+    """-> (level, flags, a, b, c, d, -X option string of the tools)"""
+    if comp == "gzip":
+        level, window = rng.randint(1, 9), rng.randint(8, 15)
+        names = ["default", "filtered", "huffman", "rle", "fixed"]
+        flags = 0 if rng.random() < 0.15 else rng.choice([1 << rng.randrange(5), rng.randrange(1, 32), rng.randrange(1, 32)])
+        return level, flags, window, 0, 0, 0, ",".join(["level=%d" % level, "window=%d" % window] + [n for i, n in enumerate(names) if flags >> i & 1])
+    if comp in ("xz", "lzma"):
+        level = rng.choice([0, 1, 2, 3, 5, 6, 9]) if B <= 16384 else rng.choice([0, 1, 3, 6])
+        dict_size = rng.choice(valid_dict_sizes(8192, max(8192, min(1 << 20, 4 * B))))
+        lc = rng.randint(0, 4)
+        lp = rng.randint(0, 4 - lc)
+        pb = rng.randint(0, 4)
+        if comp == "xz":
+            names = ["x86", "powerpc", "ia64", "arm", "armthumb", "sparc"]
+            flags = 0 if rng.random() < 0.3 else rng.randrange(64) if rng.random() < 0.5 else 1 << rng.randrange(6)
+            if rng.random() < 0.3:
+                flags |= 0x100
+            xs = [n for i, n in enumerate(names) if flags >> i & 1] + (["extreme"] if flags & 0x100 else [])
+        else:
+            flags = rng.choice([0, 0, 1])
+            xs = ["extreme"] if flags else []
+            dict_size = max(dict_size, 8192)
+        return level, flags, dict_size, lc, lp, pb, ",".join(["level=%d" % level, "dictsize=%d" % dict_size, "lc=%d" % lc, "lp=%d" % lp, "pb=%d" % pb] + xs)
+    if comp == "lz4":
+        flags = rng.choice([0, 1])
+        return 0, flags, 0, 0, 0, 0, "hc" if flags else ""
+    if comp == "zstd":
+        level = rng.choice([1, 2, 3, 5, 9, 15, 19, 22])
+        return level, 0, 0, 0, 0, 0, "level=%d" % level
+    raise ValueError(comp)
+
+
+def gen_comp_block(rng, B):
+    size = rng.choice([0, 1, 2, rng.randint(3, 40), rng.randint(41, 1023), rng.randint(41, 1023), 1023, 1024, 1025, rng.randint(1026, B), B - 1, B, B, B])
+    size = min(size, B)
+    kind = rng.choice("ttttrczbx")
+    if kind == "z":
+        return bytes(size)
+    if kind == "r":
+        return rng.randbytes(size)
+    if kind == "c":
+        out = bytearray()
+        while len(out) < size:
+            out += bytes([rng.randrange(256)]) * rng.randint(1, 300)
+        return bytes(out[:size])
+    if kind == "b":                       # small alphabet, no structure (huffman-friendly)
+        return bytes(rng.choice(b"abcdefgh") for _ in range(size))
+    if kind == "x":                       # something like machine code: call/jump opcodes with 4-byte operands (BCJ filters)
+        out = bytearray()
+        while len(out) < size:
+            out += bytes([rng.choice([0xE8, 0xE9, 0x48, 0x8B, 0x0F])]) + (rng.randrange(1 << 16)).to_bytes(4, "little") + rng.randbytes(rng.randint(0, 3))
+        return bytes(out[:size])
+    words = [b"the", b"quick", b"brown", b"fox", b"jumps", b"over", b"lazy", b"dog", b"0123456789", b"\n", b"squashfs", b"block"]
+    out = bytearray()
+    while len(out) < size:
+        out += rng.choice(words) + b" "
+    return bytes(out[:size])
+
+
+COMPRESSORS = ("gzip", "xz", "lzma", "lz4", "zstd")
+
+
+def comp_line(comp, cfg, B, k, blocks):
+    return "hi %s %d %x %d %d %d %d %d %d %d %s" % (comp, cfg[0], cfg[1], cfg[2], cfg[3], cfg[4], cfg[5], B, k, len(blocks),
+                                                     " ".join("%d %s" % (w, hx(d)) for w, d in blocks))
+
+
+def gen_comp_case(rng, comp, quick):
+    B = rng.choice([4096, 4096, 8192, 16384, 32768] if quick else [4096, 8192, 16384, 32768, 65536, 131072])
+    cfg = gen_comp_config(rng, comp, B)
+    k = rng.choice([1, 2, 2, 3, 4])
+    n = rng.randint(4, 10 if quick else 16)
+    mode = rng.choice(["random", "rr", "one", "alt-long-short"])
+    blocks = []
+    for i in range(n):
+        d = gen_comp_block(rng, B)
+        if mode == "alt-long-short":          # long block, then short ones: the shape of a file with a short last block
+            d = gen_comp_block(rng, B) if i % 3 else (gen_comp_block(rng, B) * 40)[:B]
+        w = {"random": rng.randrange(k), "rr": i % k, "one": 0, "alt-long-short": rng.randrange(k)}[mode]
+        blocks.append((w, d))
+    if rng.random() < 0.3 and blocks:           # the same block again on another worker and on the same one
+        w, d = rng.choice(blocks)
+        blocks += [((w + 1) % k, d), (w, d)]
+    return comp_line(comp, cfg, B, k, blocks), {"comp": comp, "B": B, "opts": cfg[6], "k": k, "mode": mode}
+
+
+def build_comp(ctx):
+    libs = ctx.build_lib("c02serial", serial_pool=True, exclude=("lib/util/src/xxhash.c",))
+    return ctx.cc("h_c02_comp", ["h_c02_comp.c", "weak_xxh.c"], libs=[str(libs)] + vlib.CODEC_LIBS)
+
+
+def comp_check_line(ctx, line, out):
+    """-> (verdict of the monitor, list of (hist, fresh, copy, rt) tokens)"""
+    if not out.startswith("ok "):
+        return out, []
+    toks = out.split()[2:]
+    m = ctx.driver(["c02"], "hi %d %s\n" % (len(toks), " ".join(toks)))[0]
+    return m, toks
+
+
+def comp_level(ctx, stats):
+    rng = ctx.rng
+    quick = ctx.quick()
+    t0 = time.time()
+    hc = build_comp(ctx)
+    per = 40 if quick else 250
+    lines, meta = [], []
+    for p in sorted((vlib.CORPUS / "C02").glob("comp_*.txt")) if (vlib.CORPUS / "C02").exists() else []:
+        for l in p.read_text().splitlines():
+            if l.startswith("hi "):
+                lines.append(l)
+                meta.append({"comp": l.split()[1], "B": int(l.split()[8]), "opts": "corpus:" + p.name, "k": int(l.split()[9]), "mode": "corpus"})
+    ncorpus = len(lines)
+    for comp in COMPRESSORS:
+        for _ in range(per):
+            l, m = gen_comp_case(rng, comp, quick)
+            lines.append(l)
+            meta.append(m)
+    outs, problems = run_parallel(ctx, [str(hc)], lines, 1200, pin=False)
+    for pb in problems[:3]:
+        ctx.violation("crash-comp:" + vlib.sha(pb["script"])[:12], "compressor harness aborted / hung (rc=%s): %s" % (pb["rc"], pb["stderr"][-400:]),
+                      {"kind": "comp", "line": pb["script"], "stderr": pb["stderr"]})
+    mon_in = []
+    idx = []
+    created = {}
+    blocks = short = compressed = 0
+    for i, (l, o) in enumerate(zip(lines, outs)):
+        c = meta[i]["comp"]
+        if o.startswith("ok "):
+            toks = o.split()[2:]
+            mon_in.append("hi %d %s" % (len(toks), " ".join(toks)))
+            idx.append(i)
+            created[c] = created.get(c, 0) + 1
+            blocks += len(toks)
+            compressed += sum(1 for t in toks if not t.startswith("0:") and not t.startswith("-"))
+            sizes = [len(x) // 2 if x != "-" else 0 for x in l.split()[12::2]]
+            short += sum(1 for z in sizes if 0 < z < 1024)
+    verdicts = model_run(ctx, mon_in) if mon_in else []
+    bad = 0
+    notcreated = {}
+    for i, o in enumerate(outs):
+        if o.startswith("err create") or o.startswith("err copy"):
+            notcreated[meta[i]["comp"]] = notcreated.get(meta[i]["comp"], 0) + 1
+        elif not o.startswith("ok ") and o != "<no output>":
+            bad += 1
+            if bad <= 3:
+                ctx.violation("comp-harness:" + vlib.sha(lines[i])[:12], "compressor harness: unexpected answer %r" % o[:200], {"kind": "comp", "line": lines[i]}, found_input=False)
+    contract_bad = {}
+    for i, v in zip(idx, verdicts):
+        if v != "ok":
+            toks = outs[i].split()[2:]
+            k = int(v.split()[1]) if len(v.split()) == 2 and v.split()[1].isdigit() else -1
+            t = toks[k].split("/") if 0 <= k < len(toks) else ["?"] * 4
+            m = meta[i]
+            where = "%s do_block (-X %s, block size %d, %d worker copies, assignment %s), block #%d of the sequence" % (
+                m["comp"], m["opts"] or "-", m["B"], m["k"], m["mode"], k)
+            if v.startswith("dep "):
+                bad += 1
+                if bad <= 3:
+                    what = "history dependent: the worker copy returned %s, a fresh compressor %s" % (t[0], t[1]) if t[0] != t[1] else \
+                           "a fresh sqfs_copy returned %s, a freshly created compressor %s" % (t[2], t[1])
+                    ctx.violation("comp-history:%s:%s" % (m["comp"], vlib.sha(lines[i])[:12]),
+                                  "%s: %s - the image depends on which worker thread compresses a block" % (where, what),
+                                  {"kind": "comp", "line": lines[i], "verdict": v, "result": outs[i], "options": m["opts"]})
+            else:
+                # a hypothesis of the theorems (CodecOk) does not hold of this compressor: the property is no longer shown to hold
+                contract_bad[m["comp"]] = contract_bad.get(m["comp"], 0) + 1
+                if contract_bad[m["comp"]] <= 1:
+                    sizes = [len(x) // 2 if x != "-" else 0 for x in lines[i].split()[12::2]]
+                    what = "do_block failed (%s)" % t[0] if t[0].startswith("-") else \
+                           "a %d byte block is returned as a %s byte compressed block (not shorter), or it does not uncompress to the input" % (
+                               sizes[k] if 0 <= k < len(sizes) else -1, t[0].split(":")[0])
+                    ctx.violation("codec-contract:%s" % m["comp"],
+                                  "%s: %s - the codec contract the theorems assume (CodecOk.smaller / roundTrip) does not hold" % (where, what),
+                                  {"kind": "comp", "line": lines[i], "verdict": v, "result": outs[i], "options": m["opts"]}, found_input=False)
+    for c in COMPRESSORS:
+        if created.get(c, 0) == 0:
+            bad += 1
+            ctx.violation("comp-missing:" + c, "no configuration of the %s compressor could be created (%d refused)" % (c, notcreated.get(c, 0)),
+                          {"kind": "comp-missing", "comp": c}, found_input=False)
+    stats["compressors"] = {"cases": len(lines), "corpus": ncorpus, "created": created, "configurations_refused": notcreated, "blocks": blocks,
+                            "blocks_shorter_than_1024": short, "blocks_compressed": compressed, "violations": bad,
+                            "codec_contract_broken": contract_bad,
+                            "sample_options": sorted({m["comp"] + ":" + m["opts"] for m in meta})[:12], "wall_s": round(time.time() - t0, 1)}
+    stats["evaluations"] += len(lines) + len(mon_in)
+    stats["disagreements"] += bad + sum(contract_bad.values())
+    stats["samples"].append(lines[ncorpus][:200] if len(lines) > ncorpus else "")
+
+
 # --------------------------------------------------------------------------------------------------- tool level
 TOOLS = ("gensquashfs", "tar2sqfs")
 SDE = "1600000000"
@@ -371,13 +786,38 @@ def build_tools(ctx, stats):
                        for t in TOOLS}
         stats["tsan_build"] = "ok"
     except vlib.CheckFailure as e:
+        # ThreadSanitizer is the only evidence for data-race freedom of the pool's lock-free main-thread fields: no TSan, no pass
         stats["tsan_build"] = "not available: %s" % str(e)[:200]
+        ctx.violation("infra:tsan-unavailable", "the ThreadSanitizer build of the packers cannot be produced (%s): data-race freedom is not "
+                      "exercised at all" % str(e)[:300], {"kind": "infra", "error": str(e)[:2000]}, found_input=False)
     shim = ctx.scratch / "shim_c02_time.so"
     r = vlib.sh(["gcc", "-O1", "-shared", "-fPIC", "-w", str(vlib.HARNESS / "shim_c02_time.c"), "-o", str(shim), "-ldl"])
     if r.returncode != 0:
         raise vlib.CheckFailure("cannot build shim_c02_time.so: " + r.stderr[-1000:])
     out["timeshim"] = shim
+    # locale / time zone / environment shim (harness/shim_c02_locale.c) and the proof that it is bound and answers as documented
+    lshim = ctx.scratch / "shim_c02_locale.so"
+    r = vlib.sh(["gcc", "-O1", "-shared", "-fPIC", "-w", str(vlib.HARNESS / "shim_c02_locale.c"), "-o", str(lshim), "-ldl"])
+    if r.returncode != 0:
+        raise vlib.CheckFailure("cannot build shim_c02_locale.so: " + r.stderr[-1000:])
+    st = ctx.scratch / "c02_locale_selftest"
+    r = vlib.sh(["gcc", "-O1", "-w", str(vlib.HARNESS / "c02_locale_selftest.c"), "-o", str(st)])
+    if r.returncode != 0:
+        raise vlib.CheckFailure("cannot build c02_locale_selftest: " + r.stderr[-1000:])
+    e = dict(os.environ)
+    e.update({"LD_PRELOAD": str(lshim), "C02_LOCALE_HOSTILE": "1", "C02_LOCALE_LOG": str(ctx.scratch / "c02_locale_selftest.log"), "TZ": "UTC"})
+    r = vlib.sh([str(st)], env=e, timeout=60)
+    want = "before=1 ci_before=1 locale=xx_XX.HOSTILE after=0 punct=1 ci_after=0 lowerI=253 alphaE9=1 dp=, hour=13 min=45 tz=UTC"
+    log = read_locale_log(ctx.scratch / "c02_locale_selftest.log")
+    if r.stdout.strip() != want or log.get("strcoll") != "3" or log.get("setlocale") != "1" or log.get("active") != "111":
+        raise vlib.CheckFailure("the locale shim is not in effect: self test printed %r (want %r), log %r" % (r.stdout.strip(), want, log))
+    out["localeshim"] = lshim
+    stats["locale_shim_selftest"] = r.stdout.strip()
     return out
+
+
+NAME_HEADS = ["f", "F", "a", "B", "Z", "_", "-", ".x", "~", "A", "b", "é", "É", "İ", "ı", "I", "i", "ÿ", "ß", "Ω", "a-", "a_", "ab",
+              "\udcff", "\udce9x", "\udcdd", "\udcfd"]          # the last four: raw Latin-1 / Latin-5 bytes (not UTF-8)
 
 
 def gen_tree(rng, root, B, nfiles):
@@ -386,8 +826,10 @@ def gen_tree(rng, root, B, nfiles):
     files = []
     names = []
     for i in range(nfiles):
-        d = rng.choice(["", "a", "a/b", "c"])
-        name = (d + "/" if d else "") + "f%03d_%s" % (i, rng.choice(["x", "y", "zz"]))
+        # names whose strcmp order differs from what a collating / case-folding / Turkish locale would say: mixed case, leading
+        # punctuation (ignored at the first collation level), UTF-8 letters, dotted / dotless i, Latin-1 high bytes
+        d = rng.choice(["", "a", "a/b", "c", "B", "a/É"])
+        name = (d + "/" if d else "") + "%s%03d_%s" % (rng.choice(NAME_HEADS), i, rng.choice(["x", "Y", "zz", "I", "ı"]))
         r = rng.random()
         if files and r < 0.12:
             data = rng.choice(files)[1]
@@ -437,7 +879,7 @@ def make_inputs(ctx, rng, quick, idx):
                 dirs.add(dd)
                 lines.append("dir /%s 0755 0 0" % dd)
         lines.append("file /%s 0644 %d %d %s" % (name, rng.choice([0, 1000]), rng.choice([0, 100]), root / name))
-    (d / "pack.txt").write_text("\n".join(lines) + "\n")
+    (d / "pack.txt").write_bytes(os.fsencode("\n".join(lines) + "\n"))
     bio = io.BytesIO()
     with tarfile.open(fileobj=bio, mode="w", format=tarfile.GNU_FORMAT) as tf:
         t = 1400000000
@@ -497,6 +939,20 @@ def sha_file(p):
         return "<no image>"
 
 
+def read_locale_log(p):
+    try:
+        return dict(kv.split("=", 1) for kv in Path(p).read_text().split())
+    except Exception:
+        return {}
+
+
+def installed_locales():
+    try:
+        return sorted(set(subprocess.run(["locale", "-a"], capture_output=True, text=True, timeout=30).stdout.split()))
+    except Exception:
+        return []
+
+
 def read_trace(p):
     try:
         return dict(kv.split("=") for kv in Path(p).read_text().split())
@@ -524,17 +980,31 @@ def tool_level(ctx, stats):
     orders = {}
     overtakes = 0
     worker_counts = set()
+    xopts_seen = set()
+    comps_seen = set()
+    handoffs = delays = untraced = unperturbed = 0
+    loc = {"runs": 0, "image_mismatches": 0, "calls": {}, "setlocale_args": set(), "env_names": set(), "log_missing": 0}
     tsan_runs = tsan_reports = 0
     time_calls = 0
     samples = []
     ncpu = len(os.sched_getaffinity(0))
     for ci in range(ncases):
         inp = make_inputs(ctx, input_rng(ctx.seed, ctx.tier, ci), quick, ci)
-        comps = ["gzip"] if quick else ["gzip", rng.choice(["xz", "zstd", "lz4"])]
-        for comp in comps:
-            for flavour in flavours:
+        # quick: one compressor per (input set, flavour), rotating so that every compiled-in compressor is used (gzip three times);
+        # thorough: gzip and a second, rotating compressor on every flavour
+        plan = [(COMPRESSORS[(ci * len(flavours) + fi) % len(COMPRESSORS)], fl) for fi, fl in enumerate(flavours)] if quick else \
+               [(c, fl) for c in ("gzip", COMPRESSORS[1 + ci % (len(COMPRESSORS) - 1)]) for fl in flavours]
+        for comp, flavour in plan:
+            if True:                                  # (one compressor per flavour; keeps the body's indentation)
+                comps_seen.add(comp)
+                # compressor options (-X: gzip strategies / level / window, xz filters / dictsize / lc lp pb, lz4 hc, zstd level) and -T
+                # (a file larger than a block gets a short last *data* block instead of a tail end): per-worker compressor state
+                # can only leak where the options make do_block do something that depends on them
+                xopt = gen_comp_config(rng, comp, inp["B"])[6] if rng.random() < 0.85 else ""
+                common = (["-X", xopt] if xopt else []) + (["-T"] if rng.random() < 0.5 else [])
+                xopts_seen.add(comp + ":" + (xopt or "-") + (" -T" if "-T" in common else ""))
                 ref_out = ctx.scratch / "c02_ref.sqfs"
-                cmd, stdin = tool_cmd(builds, "serial", flavour, inp, ref_out, comp, [])
+                cmd, stdin = tool_cmd(builds, "serial", flavour, inp, ref_out, comp, common)
                 rc, err = run_tool(ctx, cmd, stdin, {"SOURCE_DATE_EPOCH": SDE}, str(ctx.scratch), 0o022, [])
                 ref = sha_file(ref_out)
                 runs += 1
@@ -543,7 +1013,7 @@ def tool_level(ctx, stats):
                     if bad <= 3:
                         ctx.violation("tool-serial:" + vlib.sha(" ".join(cmd))[:12], "serial-pool build of the packer failed (rc=%s): %s" % (rc, err[-400:]),
                                       {"kind": "tool", "seed": ctx.seed, "tier": ctx.tier, "case": ci, "flavour": flavour, "comp": comp,
-                                       "variant": "serial", "extra": [], "env": {"SOURCE_DATE_EPOCH": SDE}, "umask": 0o022, "cwd": str(ctx.scratch),
+                                       "variant": "serial", "extra": [], "common": common, "env": {"SOURCE_DATE_EPOCH": SDE}, "umask": 0o022, "cwd": str(ctx.scratch),
                                        "prefix": [], "stderr": err[-2000:]})
                     continue
                 combos = []
@@ -555,7 +1025,10 @@ def tool_level(ctx, stats):
                 for k, (j, q) in enumerate(combos):
                     variant = "san"
                     env = {"SOURCE_DATE_EPOCH": SDE, "TZ": rng.choice(ENV_CHOICES["TZ"]), "LC_ALL": rng.choice(ENV_CHOICES["LC_ALL"]),
-                           "C02_PERTURB_SEED": str(rng.randrange(1 << 30)), "C02_PERTURB_US": str(rng.choice([50, 200, 1000]))}
+                           "C02_PERTURB_SEED": str(rng.randrange(1 << 30)), "C02_PERTURB_US": str(rng.choice([50, 200, 1000])),
+                           # 0: seeded delays (completion order); 1: the worker that takes the first block is held back, the others
+                           # compress what follows; 2: round robin, consecutive blocks go to different workers
+                           "C02_PERTURB_MODE": str(k % 3), "C02_PERTURB_FIRST_MS": str(rng.choice([20, 60]))}
                     umask = rng.choice(ENV_CHOICES["umask"])
                     cwd = rng.choice([str(ctx.scratch), "/", str(inp["dir"])])
                     prefix = []
@@ -580,12 +1053,18 @@ def tool_level(ctx, stats):
                     out = ctx.scratch / "c02_out.sqfs"
                     if out.exists():
                         out.unlink()
-                    cmd, stdin = tool_cmd(builds, variant, flavour, inp, out, comp, extra)
+                    cmd, stdin = tool_cmd(builds, variant, flavour, inp, out, comp, common + extra)
                     rc, err = run_tool(ctx, cmd, stdin, env, cwd, umask, prefix)
                     got = sha_file(out)
                     runs += 1
                     tr = read_trace(trace)
+                    if rc == 0 and not all(k in tr for k in ("submitted", "fifo", "workers", "perturb", "delays")):
+                        untraced += 1
+                    elif rc == 0 and tr.get("perturb") != "1":
+                        unperturbed += 1
                     if tr:
+                        handoffs += int(tr.get("handoffs", "0"))
+                        delays += int(tr.get("delays", "0"))
                         orders.setdefault((ci, comp, flavour), set()).add(tr.get("order"))
                         if int(tr.get("overtakes", "0")) > 0:
                             overtakes += 1
@@ -608,26 +1087,67 @@ def tool_level(ctx, stats):
                             ctx.violation("tool:" + vlib.sha(" ".join(cmd) + json.dumps(env, sort_keys=True))[:12],
                                           "%s -j %s -Q %s (%s, %s): %s" % (Path(cmd[0]).name, j, q, flavour, comp, why),
                                           {"kind": "tool", "seed": ctx.seed, "tier": ctx.tier, "case": ci, "flavour": flavour, "comp": comp,
-                                           "variant": variant, "extra": extra, "env": env, "umask": umask, "cwd": cwd, "prefix": prefix,
+                                           "variant": variant, "extra": extra, "common": common, "env": env, "umask": umask, "cwd": cwd, "prefix": prefix,
                                            "stderr": err[-1500:]})
                     if len(samples) < 3:
                         samples.append("%s | env TZ=%s LC_ALL=%s umask=%o cwd=%s %s" % (" ".join(prefix + cmd)[-200:], env["TZ"], env["LC_ALL"], umask, cwd,
                                                                                         "faketime=" + env.get("C02_FAKE_TIME", "-")))
+                # a hostile locale / time zone behind the locale-sensitive entry points of libc (harness/shim_c02_locale.c): the image must
+                # not change, whatever setlocale / strcoll / strcasecmp / the ctype tables / localeconv / localtime answer
+                out = ctx.scratch / "c02_out.sqfs"
+                if out.exists():
+                    out.unlink()
+                llog = ctx.scratch / "c02_locale.log"
+                if llog.exists():
+                    llog.unlink()
+                lextra = ["-j", str(rng.choice([1, 2, 4]))]
+                cmd, stdin = tool_cmd(builds, "plain", flavour, inp, out, comp, common + lextra)
+                lenv = {"SOURCE_DATE_EPOCH": SDE, "LD_PRELOAD": str(builds["localeshim"]), "C02_LOCALE_HOSTILE": "1", "C02_LOCALE_LOG": str(llog),
+                        "LC_ALL": "tr_TR.ISO-8859-9", "LANG": "tr_TR.ISO-8859-9", "LC_COLLATE": "de_DE.UTF-8", "TZ": "Pacific/Chatham"}
+                rc, err = run_tool(ctx, cmd, stdin, lenv, str(ctx.scratch), 0o022, [])
+                got = sha_file(out)
+                runs += 1
+                loc["runs"] += 1
+                ll = read_locale_log(llog)
+                if not ll or "strcoll" not in ll:
+                    loc["log_missing"] += 1
+                for k, v in ll.items():
+                    if v.isdigit() and k not in ("hostile", "active"):
+                        loc["calls"][k] = loc["calls"].get(k, 0) + int(v)
+                loc["setlocale_args"].update(x for x in ll.get("setlocale_args", "-").split(",") if x and x != "-")
+                loc["env_names"].update(x for x in ll.get("env_names", "-").split(",") if x and x != "-")
+                if rc != 0 or got != ref:
+                    loc["image_mismatches"] += 1
+                    bad += 1
+                    if bad <= 6:
+                        ctx.violation("tool-locale:" + vlib.sha(" ".join(cmd))[:12],
+                                      "%s (%s, %s) under a hostile locale / time zone (LD_PRELOAD shim: setlocale accepted, strcoll reversed and case folded, "
+                                      "Turkish case mapping, ',' as decimal point, UTC+13:45): %s; locale-sensitive calls made: %s" % (
+                                          Path(cmd[0]).name, flavour, comp,
+                                          "packer failed (rc=%s): %s" % (rc, err[-300:]) if rc != 0 else "image differs from the reference image",
+                                          {k: v for k, v in ll.items() if v.isdigit() and int(v) > 0 and k not in ("getenv", "hostile", "active")}),
+                                      {"kind": "tool", "seed": ctx.seed, "tier": ctx.tier, "case": ci, "flavour": flavour, "comp": comp,
+                                       "variant": "plain", "extra": lextra, "common": common, "env": lenv, "umask": 0o022, "cwd": str(ctx.scratch),
+                                       "prefix": [], "stderr": err[-1500:]})
                 # SOURCE_DATE_EPOCH unset, two different wall clocks: the images must not differ (nothing reads the clock)
                 shas = []
                 for ft in ("1", "2000000000"):
                     out = ctx.scratch / "c02_out.sqfs"
                     if out.exists():
                         out.unlink()
-                    cmd, stdin = tool_cmd(builds, "plain", flavour, inp, out, comp, ["-j", "3"])
+                    cmd, stdin = tool_cmd(builds, "plain", flavour, inp, out, comp, common + ["-j", "3"])
                     e = {"LD_PRELOAD": str(builds["timeshim"]), "C02_FAKE_TIME": ft, "TZ": rng.choice(ENV_CHOICES["TZ"])}
                     env_full = ctx.san_env(e)
                     env_full.pop("SOURCE_DATE_EPOCH", None)
                     f = open(stdin, "rb") if stdin else subprocess.DEVNULL
-                    r = subprocess.run(cmd, stdin=f, stdout=subprocess.PIPE, stderr=subprocess.PIPE, env=env_full, cwd=str(ctx.scratch))
+                    try:
+                        r = subprocess.run(cmd, stdin=f, stdout=subprocess.PIPE, stderr=subprocess.PIPE, env=env_full, cwd=str(ctx.scratch), timeout=600)
+                        rc_clock = r.returncode
+                    except subprocess.TimeoutExpired:
+                        rc_clock = -999
                     if stdin:
                         f.close()
-                    shas.append((r.returncode, sha_file(out)))
+                    shas.append((rc_clock, sha_file(out)))
                     runs += 1
                 if shas[0] != shas[1] or shas[0][0] != 0:
                     bad += 1
@@ -635,7 +1155,7 @@ def tool_level(ctx, stats):
                       ctx.violation("tool-clock:%s:%s:%d" % (flavour, comp, ci), "with SOURCE_DATE_EPOCH unset the image depends on the wall clock "
                                   "(time 1 vs 2000000000): %s vs %s" % (shas[0], shas[1]),
                                   {"kind": "tool", "seed": ctx.seed, "tier": ctx.tier, "case": ci, "flavour": flavour, "comp": comp,
-                                   "variant": "plain", "extra": ["-j", "3"], "env": {"LD_PRELOAD": "x", "C02_FAKE_TIME": "2000000000", "SOURCE_DATE_EPOCH": SDE},
+                                   "variant": "plain", "extra": ["-j", "3"], "common": common, "env": {"LD_PRELOAD": "x", "C02_FAKE_TIME": "2000000000", "SOURCE_DATE_EPOCH": SDE},
                                    "umask": 0o022, "cwd": str(ctx.scratch), "prefix": [], "stderr": ""})
                 # ThreadSanitizer build: reports are results
                 if "tsan" in builds and (flavour in ("packdir", "tar")):
@@ -644,7 +1164,7 @@ def tool_level(ctx, stats):
                         if out.exists():
                             out.unlink()
                         extra = ["-j", str(j)] + (["-Q", str(q)] if q else [])
-                        cmd, stdin = tool_cmd(builds, "tsan", flavour, inp, out, comp, extra)
+                        cmd, stdin = tool_cmd(builds, "tsan", flavour, inp, out, comp, common + extra)
                         env = {"SOURCE_DATE_EPOCH": SDE, "C02_PERTURB_SEED": str(rng.randrange(1 << 30)), "C02_PERTURB_US": "100"}
                         rc, err = run_tool(ctx, cmd, stdin, env, str(ctx.scratch), 0o022, [], timeout=600)
                         tsan_runs += 1
@@ -656,7 +1176,7 @@ def tool_level(ctx, stats):
                             ctx.violation("tsan:" + vlib.sha(m.group(0) if m else err[:300])[:12],
                                           "ThreadSanitizer report in %s -j %d: %s" % (Path(cmd[0]).name, j, (m.group(0) if m else err[:600])[:900]),
                                           {"kind": "tool", "seed": ctx.seed, "tier": ctx.tier, "case": ci, "flavour": flavour, "comp": comp,
-                                           "variant": "tsan", "extra": extra, "env": env, "umask": 0o022, "cwd": str(ctx.scratch), "prefix": [],
+                                           "variant": "tsan", "extra": extra, "common": common, "env": env, "umask": 0o022, "cwd": str(ctx.scratch), "prefix": [],
                                            "stderr": err[-3000:]})
                         elif rc != 0 or got != ref:
                             bad += 1
@@ -664,15 +1184,45 @@ def tool_level(ctx, stats):
                               ctx.violation("tool-tsan:" + vlib.sha(" ".join(cmd))[:12],
                                           "TSan build: rc=%s, image %s the serial build's" % (rc, "equals" if got == ref else "differs from"),
                                           {"kind": "tool", "seed": ctx.seed, "tier": ctx.tier, "case": ci, "flavour": flavour, "comp": comp,
-                                           "variant": "tsan", "extra": extra, "env": env, "umask": 0o022, "cwd": str(ctx.scratch), "prefix": [],
+                                           "variant": "tsan", "extra": extra, "common": common, "env": env, "umask": 0o022, "cwd": str(ctx.scratch), "prefix": [],
                                            "stderr": err[-1500:]})
         shutil.rmtree(inp["dir"], ignore_errors=True)
+    # instrumentation that silently stopped working is not a pass
+    if untraced or unperturbed or (runs and delays == 0) or loc["log_missing"]:
+        bad += 1
+        ctx.violation("infra:tool-instrumentation-missing",
+                      "tool level: %d successful runs left no complete pool trace (the -Wl,--wrap=thread_pool_create wrapper is not bound), %d runs did "
+                      "not see the scheduling perturbation, %d delays were applied in total, %d runs under the locale shim left no call log" % (
+                          untraced, unperturbed, delays, loc["log_missing"]),
+                      {"kind": "infra", "untraced": untraced, "unperturbed": unperturbed, "delays": delays, "locale_log_missing": loc["log_missing"]},
+                      found_input=False)
+    missing = [c for c in COMPRESSORS if c not in comps_seen]
+    if missing:
+        bad += 1
+        ctx.violation("infra:compressor-not-covered", "tool level: compressors never used: %s" % missing, {"kind": "infra", "missing": missing}, found_input=False)
+    avail = installed_locales()
+    stats["locale"] = {
+        "installed_locales": avail,
+        "LC_ALL_values_that_are_really_another_locale": [v for v in ENV_CHOICES["LC_ALL"] if v in avail and v not in ("C", "POSIX", "C.utf8", "C.UTF-8")],
+        "note": "LC_ALL values that are not installed fall back to the C locale; a non-C locale is therefore emulated by harness/shim_c02_locale.c "
+                "(hostile collation / case mapping / ctype / decimal point / time zone behind setlocale, strcoll, strxfrm, strcasecmp, the ctype "
+                "tables, localeconv, localtime, mktime)",
+        "selftest": stats.get("locale_shim_selftest"), "runs_under_hostile_shim": loc["runs"], "image_mismatches": loc["image_mismatches"],
+        "calls_recorded": dict(sorted(loc["calls"].items())),
+        "locale_sensitive_calls_made": {k: v for k, v in sorted(loc["calls"].items()) if v > 0 and k not in ("getenv", "umask", "getcwd")},
+        "setlocale_arguments": sorted(loc["setlocale_args"]), "environment_variables_asked_for": sorted(loc["env_names"]),
+        "name_heads": NAME_HEADS}
+    if not quick:
+        bad += big_case(ctx, builds, stats)
+        runs += 3
     sde_bad = sde_level(ctx, builds, stats)
     stats["tool"] = {
         "runs": runs, "input_sets": ncases, "flavours": flavours, "jobs": [str(j) for j in jobs_list], "backlogs": [str(q) for q in q_list],
         "image_mismatches": bad, "distinct_completion_orders": sum(len(v) for v in orders.values()),
         "configurations_with_more_than_one_completion_order": sum(1 for v in orders.values() if len(v) > 1),
-        "runs_with_overtaking_blocks": overtakes, "worker_counts_seen": sorted(worker_counts, key=lambda x: int(x or 0)),
+        "runs_with_overtaking_blocks": overtakes, "consecutive_blocks_started_by_different_workers": handoffs,
+        "compressor_options": sorted(xopts_seen)[:40], "compressors_used": sorted(comps_seen), "perturbation_delays_applied": delays,
+        "locale": stats.get("locale", {}), "data_area_beyond_4GiB": stats.get("big", "thorough tier only"), "worker_counts_seen": sorted(worker_counts, key=lambda x: int(x or 0)),
         "tsan_build": stats.get("tsan_build"), "tsan_runs": tsan_runs, "tsan_reports": tsan_reports,
         "clock_reads_intercepted": time_calls, "source_date_epoch_cases": stats.get("sde_cases", 0),
         "environment": "TZ x LC_ALL x umask x cwd x CPU affinity (taskset) x faked clock (LD_PRELOAD) x SOURCE_DATE_EPOCH fixed",
@@ -680,6 +1230,74 @@ def tool_level(ctx, stats):
     stats["evaluations"] += runs
     stats["disagreements"] += bad + tsan_reports + sde_bad
     stats["samples"] += samples
+
+
+
+def sha_file_big(p):
+    try:
+        h = hashlib.sha256()
+        with open(p, "rb") as f:
+            while True:
+                b = f.read(1 << 24)
+                if not b:
+                    break
+                h.update(b)
+        return h.hexdigest()
+    except OSError:
+        return "<no image>"
+
+
+def big_case(ctx, builds, stats, replay_only=None):
+    """thorough tier: a data area beyond 4 GiB.  One 4.3 GiB file of incompressible data (a 64 MiB pseudo-random chunk repeated: there is
+    no block-level de-duplication, lz4 stores every block raw), then a two-block file whose blocks start beyond 2^32 and a tail end whose
+    fragment block lies beyond 2^32; serial-pool build vs. threaded runs.  -> number of mismatches"""
+    import random, struct
+    t0 = time.time()
+    d = ctx.scratch / "c02big"
+    if d.exists():
+        shutil.rmtree(d)
+    (d / "root").mkdir(parents=True)
+    rng = random.Random("C02/big")
+    chunk = rng.randbytes(64 << 20)
+    with open(d / "root" / "a_big", "wb") as f:
+        for _ in range(69):
+            f.write(chunk)
+        f.write(chunk[:12345])
+    (d / "root" / "b_small").write_bytes(rng.randbytes(200000))
+    (d / "root" / "c_tail").write_bytes(b"tail end beyond four gigabytes\n")
+    for n, t in (("a_big", 1500000001), ("b_small", 1500000002), ("c_tail", 1500000003), ("", 1500000004)):
+        os.utime(d / "root" / n if n else d / "root", (t, t))
+    size = os.path.getsize(d / "root" / "a_big")
+    configs = [("serial", [], {}), ("plain", ["-j", "4"], {"C02_PERTURB_SEED": "7", "C02_PERTURB_MODE": "2"}),
+               ("plain", ["-j", "2", "-Q", "3"], {"C02_PERTURB_SEED": "8", "C02_PERTURB_MODE": "0", "C02_PERTURB_US": "200"})]
+    shas, bad = [], 0
+    bytes_used = None
+    for variant, extra, env in configs:
+        out = d / "out.sqfs"
+        if out.exists():
+            out.unlink()
+        cmd = [str(builds[variant]["gensquashfs"]), "-q", "-f", "-c", "lz4", "-b", "1048576", "-D", str(d / "root")] + extra + [str(out)]
+        e = {"SOURCE_DATE_EPOCH": SDE}
+        e.update(env)
+        rc, err = run_tool(ctx, cmd, None, e, str(ctx.scratch), 0o022, [], timeout=1800)
+        sha = sha_file_big(out)
+        shas.append((rc, sha))
+        try:
+            with open(out, "rb") as f:
+                f.seek(40)
+                bytes_used = struct.unpack("<Q", f.read(8))[0]
+        except Exception:
+            bytes_used = None
+        if rc != 0 or sha != shas[0][1] or bytes_used is None or bytes_used <= (1 << 32):
+            bad += 1
+            ctx.violation("tool-big:" + vlib.sha(" ".join(extra) + variant)[:12],
+                          "data area beyond 4 GiB (one %d byte file of incompressible data, -c lz4 -b 1M): %s %s: rc=%s, image %s, bytes_used=%s" % (
+                              size, variant, " ".join(extra), rc, "equals the serial-pool build's" if sha == shas[0][1] else "differs from the serial-pool build's", bytes_used),
+                          {"kind": "tool-big", "variant": variant, "extra": extra, "env": env, "stderr": err[-1500:]})
+    shutil.rmtree(d, ignore_errors=True)
+    stats["big"] = {"input_bytes": size, "bytes_used": bytes_used, "runs": len(configs), "mismatches": bad, "sha256": shas[0][1][:16], "wall_s": round(time.time() - t0, 1),
+                    "what": "4.3 GiB of stored data; the second file's blocks and the fragment block lie beyond 2^32"}
+    return bad
 
 
 def sde_level(ctx, builds, stats):
@@ -728,7 +1346,9 @@ def run(ctx):
         ctx.violation("proof:C02", "the Lean development of C02 does not check: %s" % "; ".join(p[:300] for p in problems)[:1500],
                       {"broken": problems}, found_input=False)
     stats = {"evaluations": 0, "disagreements": 0, "samples": []}
-    unit_level(ctx, stats)
+    h, hs = unit_level(ctx, stats)
+    script_level(ctx, stats, h, hs)
+    comp_level(ctx, stats)
     tool_level(ctx, stats)
     ctx.cov.update({
         "evaluations": stats["evaluations"],
@@ -736,17 +1356,23 @@ def run(ctx):
         "rule": "a workload is non-trivial when it has a fragment-block overflow, a fragment or whole-file deduplication hit, a sparse "
                 "block or a file of more than two blocks (measured on the serial build's output)",
         "samples": stats["samples"], "disagreements_checked": stats["disagreements"], "unit_level": stats["unit"],
-        "tool_level": stats.get("tool", {}),
+        "tool_level": stats.get("tool", {}), "api_scripts_and_failing_compressor": stats.get("scripts", {}),
+        "compressor_level": stats.get("compressors", {}),
         "input_distribution": "block sizes 4..64 (big: 64..256), 1..12 (big: 10..40) files of k*B-1/k*B/k*B+1 bytes and short tails, "
                               "random / run-length-compressible / two-letter / all-zero contents, duplicates, shared heads and tails, "
                               "zero blocks and zero tails, all 32 user flag sets, xxh32 truncated to 32/8/2/0 bits, toy codec or none, "
                               "append chunk sizes 1..whole file"})
     return ctx.finish(LEVEL, trusted_extra=[
-        "harness/sched.c + shim_sched.h (cooperative scheduler standing in for libpthread), harness/h_c02.c (toy codec, memory file, "
-        "logging block writer, link-time wrapper of thread_pool_create that records submit/completion/dequeue order), harness/weak_xxh.c",
-        "the block codec contract (what the compressor produced, the uncompressor restores; a compressed block is shorter) and block "
-        "sizes below 2^24 are hypotheses of the theorems"],
-        assumptions=["worker callbacks do not fail (compressor errors are C09/C13)", "no allocation failure (C13)"])
+        "harness/sched.c + shim_sched.h (cooperative scheduler standing in for libpthread), harness/h_c02.c (toy codec, fake failing "
+        "codec, memory file, logging block writer, link-time wrapper of thread_pool_create that records submit/completion/dequeue order), "
+        "harness/h_c02_comp.c, harness/c02_pooltrace.c, harness/weak_xxh.c",
+        "the block codec contract (what the compressor produced, the uncompressor restores; a compressed block is shorter), block sizes "
+        "below 2^24 and the PURITY of do_block (its result is a function of the block alone, whatever the compressor object compressed "
+        "before: Sqfs.BlockProc.StatefulCodec.HistoryIndependent) are hypotheses of the theorems; zlib, liblzma, liblz4 and libzstd are "
+        "third-party code: their history independence is observed on seeded samples (compressor level), not proved"],
+        assumptions=["schedule_independent / jobs_independent: worker callbacks do not fail (a failing compressor is covered by "
+                     "failure_deterministic_partial and the failing-codec runs; on the unrepaired tree the failure can be swallowed: known finding)",
+                     "no allocation failure (C13)"])
 
 
 def replay(ctx, path):
@@ -787,6 +1413,36 @@ def replay(ctx, path):
             fail = a != b
         print("REPRODUCED" if fail else "not reproduced")
         return 1 if fail else 0
+    if kind == "comp":
+        hc = build_comp(ctx)
+        o = vlib.sh([str(hc)], input=rp["line"] + "\n", env=ctx.san_env(), timeout=600).stdout.strip()
+        v, toks = comp_check_line(ctx, rp["line"], o)
+        print("compressor %s, options %s" % (rp["line"].split()[1], rp.get("options")))
+        for i, t in enumerate(toks):
+            print("  block %d: worker copy with history / fresh compressor / fresh copy / round trip: %s" % (i, t))
+        print("monitor (obsIndependent):", v)
+        print("REPRODUCED" if v != "ok" else "not reproduced")
+        return 1 if v != "ok" else 0
+    if kind == "unit-script":
+        h, hs = build_unit(ctx)
+        b = split_result(vlib.sh([str(hs)], input=rp["harness_line"] + "\n", env=ctx.san_env(), timeout=600).stdout.strip())[0]
+        ms = [ctx.driver(["c02"], l + "\n")[0] for l in rp["model_lines"]]
+        print("real (serial pool):     ", b[:3000])
+        print("model, current sync():  ", ms[0][:3000])
+        print("model, repaired sync(): ", ms[1][:3000])
+        fail = b not in ms
+        print("REPRODUCED" if fail else "not reproduced")
+        return 1 if fail else 0
+    if kind == "unit-fail":
+        h, hs = build_unit(ctx)
+        a = vlib.sh([str(hs if rp.get("ok_serial") else h)], input=rp["ok_line"] + "\n", env=ctx.san_env(), timeout=600).stdout.strip()
+        print("run that reported success:", a[:1500])
+        if rp.get("err_line"):
+            print("run that reported an error:", vlib.sh([str(h)], input=rp["err_line"] + "\n", env=ctx.san_env(), timeout=600).stdout.strip()[:600])
+        ca, tr = split_result(a)
+        fail = ca.startswith("ok ") and int(tr.get("wfail", "0")) > 0
+        print("REPRODUCED: a worker callback failed (wfail=%s) and finish() returned 0" % tr.get("wfail") if fail else "not reproduced")
+        return 1 if fail else 0
     if kind == "tool":
         stats = {}
         builds = build_tools(ctx, stats)
@@ -796,14 +1452,15 @@ def replay(ctx, path):
         quick = rp.get("tier", "quick") == "quick"
         inp = make_inputs(ctx, input_rng(rp["seed"], rp.get("tier", "quick"), rp["case"]), quick, rp["case"])
         ref_out, out = ctx.scratch / "c02_ref.sqfs", ctx.scratch / "c02_out.sqfs"
-        cmd, stdin = tool_cmd(builds, "serial", rp["flavour"], inp, ref_out, rp["comp"], [])
+        common = rp.get("common", [])
+        cmd, stdin = tool_cmd(builds, "serial", rp["flavour"], inp, ref_out, rp["comp"], common)
         rc0, err0 = run_tool(ctx, cmd, stdin, {"SOURCE_DATE_EPOCH": SDE}, str(ctx.scratch), 0o022, [])
         env = dict(rp["env"])
         if "LD_PRELOAD" in env:
             env["LD_PRELOAD"] = str(builds["timeshim"])
         env["C02_TRACE_FILE"] = str(ctx.scratch / "c02_trace.txt")
         cwd = rp["cwd"] if os.path.isdir(rp["cwd"]) else str(ctx.scratch)
-        cmd, stdin = tool_cmd(builds, rp["variant"], rp["flavour"], inp, out, rp["comp"], rp["extra"])
+        cmd, stdin = tool_cmd(builds, rp["variant"], rp["flavour"], inp, out, rp["comp"], common + rp["extra"])
         rc, err = run_tool(ctx, cmd, stdin, env, cwd, rp["umask"], rp["prefix"], timeout=600)
         a, b = sha_file(ref_out), sha_file(out)
         print("serial build  rc=%s sha256=%s" % (rc0, a))
@@ -813,6 +1470,15 @@ def replay(ctx, path):
             print(err[-3000:])
         fail = rc != 0 or a != b or "ThreadSanitizer" in err
         print("REPRODUCED" if fail else "not reproduced (the failure may need another schedule: repeat, or vary C02_PERTURB_SEED)")
+        return 1 if fail else 0
+    if kind == "tool-big":
+        stats = {}
+        builds = build_tools(ctx, stats)
+        n = len(ctx.violations)
+        big_case(ctx, builds, stats)
+        print(stats.get("big"))
+        fail = len(ctx.violations) > n
+        print("REPRODUCED" if fail else "not reproduced")
         return 1 if fail else 0
     if kind == "sde":
         stats = {}
